@@ -40,7 +40,8 @@ Obs(snapshot) ==
    success |-> IF snapshot THEN success ELSE IF pc = "Classified" THEN success ELSE cl.success,
    nit |-> IF snapshot THEN nit + 1 ELSE nit, nfev |-> nfev, njev |-> njev,
    funOk |-> fAt = x, jacOk |-> gAt = x, pg |-> pg, leT |-> LeT(fx), fr |-> fx,
-   prov |-> Pairs(mem), yOk |-> [i \in 1..(Len(mem) - 1) |-> TRUE], syPos |-> TRUE,
+   prov |-> Pairs(mem), yOk |-> [i \in 1..(Len(mem) - 1) |-> TRUE],
+   exact |-> [i \in 1..(Len(mem) - 1) |-> TRUE], yAp |-> [i \in 1..(Len(mem) - 1) |-> TRUE], syPos |-> TRUE,
    frozen |-> TRUE]
 
 LowerTrials == {i \in DOMAIN ls.trials : ls.trials[i].fr < fx}
@@ -145,6 +146,8 @@ I_C18_Count == C18_Count
 I_C18_Provenance == C18_Provenance
 I_C18_SnapProvenance == C18_SnapProvenance
 I_C18_Curvature == C18_Curvature
+I_C18_ProvenanceRestart == C18_ProvenanceRestart
+I_C18_InheritedExact == C18_InheritedExact
 I_C17_ScalerOnce == C17_ScalerOnce
 I_C20_Propagates == C20_Propagates
 I_C20_NoResultAfterFault == C20_NoResultAfterFault
